@@ -1,7 +1,243 @@
-(* C09 -- placeholder while the proofs are being moved in *)
-From Coq Require Import List ZArith Bool.
+(* C09 -- dimensionality is the rank of the periodic bonding network, however presented.
+   Only statements closed by [exact]; models in Geometry/Dimensionality.v, proofs in
+   Geometry/DimensionalityProofs.v and Base/Cover.v.
+
+   Proved: None iff disconnected; 0 without periodic axes; the 1x / 2x minimum-image graphs are the
+   quotients of the infinite bonded graph (under the C10 table specification, a Section hypothesis);
+   metric mirror = discrete mirror; the covering-graph counting theorem N_2x * |K| = 2^k, hence
+   "the 2x formula returns log2 |K|"; K is the GF(2)-span of the cycle voltages, hence the code mirror
+   returns exactly the GF(2) rank of the specification dim_spec (None iff dim_spec is None);
+   K = parity masks of the lattice translations mapping the network through atom 0 to itself;
+   invariance of the mirror's answer under lattice shifts of atoms, re-numbering of atoms and change of
+   lattice basis (discrete level), invariance of every image distance under rigid motions (metric level);
+   voltage algebra.
+   Not proved, kept visible as a Definition in DimensionalityProofs.v and tested by vm_compute on every
+   generated pair:  C09_invariance_full_statement (the integer-rank half of dim_spec does not depend on the
+   presentation); supercells are covered by tests only. *)
+From Coq Require Import List Arith ZArith Bool.
 Import ListNotations.
-From MV Require Import Geometry.Dimensionality.
-Example C09_chain : get_dim_graph 1 (true, true, true) [(0, 0, (1, 0, 0)%Z)] = Some 1%Z /\ dim_spec 1 [(0, 0, (1, 0, 0)%Z)] = Some (1, 1).
-Proof. exact ex_chain_1d. Qed.
-Print Assumptions C09_chain.
+From MV Require Import Base.Graph Base.Cover Base.ZV3 Geometry.Dimensionality Geometry.DimensionalityProofs
+  Geometry.DimensionalityInvariance.
+Local Open Scope nat_scope.
+
+(* get_dimensionality's control flow returns None exactly when two atoms of the cell contents are not
+   joined by a chain of bonds (a1 = any symmetric 1x bond relation, a2 = any 2x relation) *)
+Theorem C09_none_iff_disconnected :
+  forall n p a1 a2, (forall u v, u < n -> v < n -> a1 u v = a1 v u) ->
+    (dim_from n p a1 a2 = None <-> exists i j, i < n /\ j < n /\ ~ reach a1 (seq 0 n) i j).
+Proof. exact none_iff_disconnected. Qed.
+Print Assumptions C09_none_iff_disconnected.
+
+(* the same for the discrete mirror evaluated in the correspondence check *)
+Theorem C09_none_iff_disconnected_graph :
+  forall n p E,
+    (get_dim_graph n p E = None <-> exists i j, i < n /\ j < n /\ ~ reach (adj1_of (nbr_tab n p E)) (seq 0 n) i j).
+Proof. exact none_iff_disconnected_graph. Qed.
+Print Assumptions C09_none_iff_disconnected_graph.
+
+(* without periodic directions a connected system has dimensionality 0 (and nothing but None / 0 is possible) *)
+Theorem C09_dim0_without_pbc :
+  forall n p a1 a2, (forall u v, u < n -> v < n -> a1 u v = a1 v u) ->
+    npbc p = 0 -> connected1 n a1 -> dim_from n p a1 a2 = Some 0%Z.
+Proof. exact dim0_without_pbc. Qed.
+Print Assumptions C09_dim0_without_pbc.
+Theorem C09_without_pbc_none_or_0 :
+  forall n p a1 a2, npbc p = 0 -> dim_from n p a1 a2 = None \/ dim_from n p a1 a2 = Some 0%Z.
+Proof. exact dim_without_pbc_cases. Qed.
+Print Assumptions C09_without_pbc_none_or_0.
+
+(* the component list used for both graphs is a partition by pairwise unconnected roots; fuel |V| suffices *)
+Theorem C09_components_partition :
+  forall adj V, NoDup V ->
+    exists rs, components adj V = map (component adj V) rs /\ incl rs V /\ indep adj V rs
+               /\ (forall x, In x V -> exists r, In r rs /\ reach adj V r x).
+Proof. exact components_spec. Qed.
+Print Assumptions C09_components_partition.
+
+(* under the C10 specification of the table: the 1x graph is the quotient of the infinite bonded graph by the lattice *)
+Theorem C09_graph_1x_is_quotient :
+  forall a b c pos n p rad thr, 0 < n -> (0 <= thr)%Z -> (forall i, i < n -> (0 <= rad i)%Z) ->
+  forall tab1, tab_spec p (img_d2 a b c pos) n (cutoff n rad thr) tab1 ->
+  forall i j, i < n -> j < n ->
+    (bondt thr tab1 rad i j = true <-> i = j \/ exists o, okoff p o = true /\ bonded a b c pos rad thr i j o).
+Proof. exact graph_1x_is_quotient. Qed.
+Print Assumptions C09_graph_1x_is_quotient.
+
+(* ... and the 2x graph (atoms numbered as ase.Atoms.repeat numbers them, radii tiled) is its quotient by (2Z)^k:
+   copies cu, cv of atoms i, j are bonded iff some bonded image pair (i, j, o) has parity mask cu xor cv *)
+Theorem C09_graph_2x_is_quotient :
+  forall a b c pos n p rad thr, 0 < n -> (0 <= thr)%Z -> (forall i, i < n -> (0 <= rad i)%Z) ->
+  forall tab2, tab_spec p (img2 a b c pos n p) (2 ^ npbc p * n) (cutoff n rad thr) tab2 ->
+  forall u v, u < 2 ^ npbc p * n -> v < 2 ^ npbc p * n ->
+    (bondt thr tab2 (rad2 n rad) u v = true <->
+     u = v \/ exists o, okoff p o = true /\ bonded a b c pos rad thr (u mod n) (v mod n) o
+                        /\ mask p o = Nat.lxor (u / n) (v / n)).
+Proof. exact graph_2x_is_quotient. Qed.
+Print Assumptions C09_graph_2x_is_quotient.
+
+(* hence the metric mirror of the code equals the discrete mirror on the exact list of bonded image pairs *)
+Theorem C09_metric_eq_graph :
+  forall a b c pos n p rad thr, 0 < n -> (0 <= thr)%Z -> (forall i, i < n -> (0 <= rad i)%Z) ->
+  forall E, wf_E n p E = true ->
+  (forall i j o, i < n -> j < n -> okoff p o = true -> (i, o) <> (j, ozero) ->
+     (In (i, j, o) (sym E) <-> bonded a b c pos rad thr i j o)) ->
+  forall tab1 tab2,
+    tab_spec p (img_d2 a b c pos) n (cutoff n rad thr) tab1 ->
+    tab_spec p (img2 a b c pos n p) (2 ^ npbc p * n) (cutoff n rad thr) tab2 ->
+    get_dim_metric n p rad thr tab1 tab2 = get_dim_graph n p E.
+Proof. exact metric_eq_graph. Qed.
+Print Assumptions C09_metric_eq_graph.
+
+(* the hypotheses of the three theorems above are satisfiable (a chain of touching atoms along x) *)
+Theorem C09_metric_hypotheses_nonvacuous :
+  let a := mk3 4 0 0 in let b := mk3 0 4 0 in let c := mk3 0 0 4 in
+  let pos := fun _ : nat => mk3 1 1 1 in let p := (true, false, false) in
+  let rad := fun _ : nat => 1%Z in let thr := 2%Z in let E := [(0, 0, (1, 0, 0)%Z)] in
+  let tab1 := fun _ _ : nat => Some 0%Z in
+  let tab2 := fun u v : nat => if u =? v then Some 0%Z else Some 16%Z in
+  tab_spec p (img_d2 a b c pos) 1 (cutoff 1 rad thr) tab1
+  /\ tab_spec p (img2 a b c pos 1 p) (2 ^ npbc p * 1) (cutoff 1 rad thr) tab2
+  /\ wf_E 1 p E = true
+  /\ (forall i j o, i < 1 -> j < 1 -> okoff p o = true -> (i, o) <> (j, ozero) ->
+        (In (i, j, o) (sym E) <-> bonded a b c pos rad thr i j o))
+  /\ get_dim_metric 1 p rad thr tab1 tab2 = Some 1%Z /\ get_dim_graph 1 p E = Some 1%Z.
+Proof. exact metric_hypotheses_satisfiable. Qed.
+Print Assumptions C09_metric_hypotheses_nonvacuous.
+
+(* covering-graph counting theorem, abstract form: connected base graph on n vertices, labels in {0..2^k-1} *)
+Theorem C09_cover_count :
+  forall n k, 0 < n -> forall lab adj1,
+    (forall i j c, i < n -> j < n -> lab i j c = lab j i c) ->
+    (forall i j c, lab i j c = true -> c < 2 ^ k) ->
+    (forall i j, i < n -> j < n -> adj1 i j = true -> i = j \/ exists c, lab i j c = true) ->
+    (forall i, i < n -> reach adj1 (V1 n) 0 i) ->
+    ncomp (adj2 n lab) (V2 n k) * length (K n k lab) = 2 ^ k.
+Proof. exact cover_count. Qed.
+Print Assumptions C09_cover_count.
+
+(* C09_full_statement: for the code mirror, N_2x * |K| = 2^k *)
+Theorem C09_full_statement_proved : C09_full_statement.
+Proof. exact C09_full_statement_holds. Qed.
+Print Assumptions C09_full_statement_proved.
+
+(* ... so for a connected cell with periodic axes the 2x formula returns log2 |K| (an integer in 0..k),
+   K = parities a such that copy a of atom 0 is joined to copy 0 of atom 0 in the 2x supercell *)
+Theorem C09_formula_is_log2K :
+  forall n p E, 0 < n -> 0 < npbc p -> connectedE n p E ->
+    exists d, d <= npbc p /\ length (Kset n p E) = 2 ^ d /\ get_dim_graph n p E = Some (Z.of_nat d).
+Proof. exact formula_is_log2K. Qed.
+Print Assumptions C09_formula_is_log2K.
+
+(* the specification reports "disconnected" exactly when the cell contents are not connected (n sweeps of the
+   potential relaxation suffice) *)
+Theorem C09_spec_none_iff_disconnected :
+  forall n p E, wf_E n p E = true -> 0 < n -> (dim_spec n p E = None <-> ~ connectedE n p E).
+Proof. exact spec_none_iff_disconnected. Qed.
+Print Assumptions C09_spec_none_iff_disconnected.
+
+(* K is the GF(2)-span of the cycle voltages: |K| = 2^rank2 *)
+Theorem C09_K_is_rank2 :
+  forall n p E r2 rz, wf_E n p E = true -> 0 < n -> dim_spec n p E = Some (r2, rz) ->
+    length (Kset n p E) = 2 ^ r2.
+Proof. exact K_is_rank2. Qed.
+Print Assumptions C09_K_is_rank2.
+
+(* the code mirror (1x components, repeat ordering, 2x components, n_pbc - log2 N_2x) returns exactly the
+   GF(2) rank of the cycle-voltage lattice of the independent specification, and None iff it reports None *)
+Theorem C09_mirror_eq_spec :
+  forall n p E, wf_E n p E = true -> 0 < n ->
+    get_dim_graph n p E = match dim_spec n p E with Some (r2, _) => Some (Z.of_nat r2) | None => None end.
+Proof. exact mirror_eq_spec2. Qed.
+Print Assumptions C09_mirror_eq_spec.
+
+(* meaning of K in the infinite periodic network: a is in K iff some lattice translation t of parity a maps the
+   bonded network through atom 0 to itself (image (0, t) of atom 0 is joined to atom 0 by a chain of bonds) *)
+Theorem C09_K_is_parity_of_self_translations :
+  forall n p E, wf_E n p E = true -> 0 < n -> forall a,
+    (In a (Kset n p E) <-> exists t, okoff p t = true /\ self_translation E t /\ mask p t = a).
+Proof. exact K_is_parity_of_self_translations. Qed.
+Print Assumptions C09_K_is_parity_of_self_translations.
+
+(* lattice shifts of atoms: the lattice of self-translations is unchanged ... *)
+Theorem C09_self_translation_shift_invariant :
+  forall s E t, self_translation (shiftE s E) t <-> self_translation E t.
+Proof. exact self_translation_shift_invariant. Qed.
+Print Assumptions C09_self_translation_shift_invariant.
+(* ... and so is the answer of the code mirror (shiftE s E is the bonded-pair list of the structure whose atom i
+   has been moved by the lattice vector s i, see img_d2_shift) *)
+Theorem C09_shift_invariance :
+  forall n p E s, wf_E n p E = true -> 0 < n -> (forall i, okoff p (s i) = true) ->
+    get_dim_graph n p (shiftE s E) = get_dim_graph n p E.
+Proof. exact shift_invariance_mirror. Qed.
+Print Assumptions C09_shift_invariance.
+
+(* re-numbering of the atoms by a bijection pi of 0..n-1 *)
+Theorem C09_permutation_invariance :
+  forall n p, 0 < n -> forall pi pi',
+    (forall i, i < n -> pi i < n) -> (forall i, i < n -> pi' i < n) ->
+    (forall i, i < n -> pi' (pi i) = i) -> (forall i, i < n -> pi (pi' i) = i) ->
+    forall E, wf_E n p E = true -> get_dim_graph n p (permE pi E) = get_dim_graph n p E.
+Proof. exact permutation_invariance_mirror. Qed.
+Print Assumptions C09_permutation_invariance.
+
+(* change of lattice basis: offsets are transformed by W = U^-1 (integer, inverse W', both preserving the periodic
+   axes); the answer is unchanged *)
+Theorem C09_basis_change_invariance :
+  forall n p, 0 < n -> forall W W',
+    (forall o, lin W' (lin W o) = o) -> (forall o, lin W (lin W' o) = o) ->
+    (forall o, okoff p o = true -> okoff p (lin W o) = true) ->
+    (forall o, okoff p o = true -> okoff p (lin W' o) = true) ->
+    forall E, wf_E n p E = true -> get_dim_graph n p (basisE W E) = get_dim_graph n p E.
+Proof. exact basis_change_invariance_mirror. Qed.
+Print Assumptions C09_basis_change_invariance.
+
+(* rigid motion: orthogonal matrix applied to cell and positions, then a translation: all image distances, hence the
+   bonded image pairs and everything computed from them, are unchanged *)
+Theorem C09_rigid_motion_invariance :
+  forall q1 q2 q3 tr a b c pos i j o, orthogonal q1 q2 q3 ->
+    img_d2 (mapply q1 q2 q3 a) (mapply q1 q2 q3 b) (mapply q1 q2 q3 c)
+           (fun i => add (mapply q1 q2 q3 (pos i)) tr) i j o
+    = img_d2 a b c pos i j o.
+Proof. exact img_d2_rigid_invariant. Qed.
+Print Assumptions C09_rigid_motion_invariance.
+
+(* the answer depends on the presentation only through connectivity and K *)
+Theorem C09_mirror_determined :
+  forall n p, 0 < n -> forall E E', wf_E n p E = true -> wf_E n p E' = true ->
+    (connectedE n p E' <-> connectedE n p E) ->
+    (connectedE n p E -> forall a, In a (Kset n p E') <-> In a (Kset n p E)) ->
+    get_dim_graph n p E' = get_dim_graph n p E.
+Proof. exact mirror_determined. Qed.
+Print Assumptions C09_mirror_determined.
+
+(* invariance clauses, metric level: the None answer of a structure does not depend on lattice shifts of atoms
+   along periodic axes (the 1x bond relation "some admissible image within reach" is unchanged) *)
+Theorem C09_shift_invariance_partial :
+  forall a b c pos rad thr p (s : nat -> off) i j, (forall i, okoff p (s i) = true) ->
+  ((exists o, okoff p o = true /\
+      bonded a b c (fun i => let '(x, y, z) := s i in add (pos i) (lat a b c x y z)) rad thr i j o)
+   <-> (exists o, okoff p o = true /\ bonded a b c pos rad thr i j o)).
+Proof. exact bonded_exists_shift_invariant. Qed.
+Print Assumptions C09_shift_invariance_partial.
+
+(* cycle voltages are unchanged by lattice shifts of atoms (potentials re-labelled accordingly) ... *)
+Theorem C09_voltage_shift_partial :
+  forall pi pj si sj o, osub (oadd (osub pi si) (oadd (osub o sj) si)) (osub pj sj) = osub (oadd pi o) pj.
+Proof. exact voltage_shift_invariant. Qed.
+Print Assumptions C09_voltage_shift_partial.
+(* ... transform linearly under a change of lattice basis ... *)
+Theorem C09_voltage_basis_change_partial :
+  forall U pi pj o, lin U (osub (oadd pi o) pj) = osub (oadd (lin U pi) (lin U o)) (lin U pj).
+Proof. exact voltage_linear. Qed.
+Print Assumptions C09_voltage_basis_change_partial.
+(* ... and the 2x labels are additive *)
+Theorem C09_mask_additive : forall p u v, mask p (oadd u v) = Nat.lxor (mask p u) (mask p v).
+Proof. exact mask_oadd. Qed.
+Print Assumptions C09_mask_additive.
+
+(* the GF(2) rank can differ from the integer rank: a network connected to its images only through a+b and a-b *)
+Example C09_rank_mismatch_exists :
+  get_dim_graph 1 (true, true, false) [(0, 0, (1, 1, 0)%Z); (0, 0, (1, -1, 0)%Z)] = Some 1%Z
+  /\ dim_spec 1 (true, true, false) [(0, 0, (1, 1, 0)%Z); (0, 0, (1, -1, 0)%Z)] = Some (1, 2).
+Proof. exact ex_checkerboard. Qed.
+Print Assumptions C09_rank_mismatch_exists.
